@@ -1,6 +1,7 @@
 package verifsim
 
 import (
+	"fmt"
 	"errors"
 	"io"
 	"net"
@@ -69,7 +70,44 @@ type Link struct {
 }
 
 func (w *World) NewLink(name string) *Link {
-	return &Link{W: w, Name: name, wake: make(chan struct{}), Record: true, MaxCuts: 3}
+	l := &Link{W: w, Name: name, wake: make(chan struct{}), Record: true, MaxCuts: 3}
+	w.mu.Lock()
+	w.links = append(w.links, l)
+	w.mu.Unlock()
+	return l
+}
+
+// Livelock looks for a link whose last n writes are byte-identical and were all made within span of simulated
+// time: a party saying the same thing over and over without the clock moving. Returns "" if there is none.
+func (w *World) Livelock(n int, span time.Duration) string {
+	w.mu.Lock()
+	defer w.mu.Unlock()
+	for _, l := range w.links {
+		ev := l.Events
+		if len(ev) < n {
+			continue
+		}
+		last := ev[len(ev)-n:]
+		if last[n-1].T-last[0].T > span {
+			continue
+		}
+		first := l.Sent[last[0].Off : last[0].Off+last[0].N]
+		same := true
+		for _, e := range last[1:] {
+			if e.N != len(first) || string(l.Sent[e.Off:e.Off+e.N]) != string(first) {
+				same = false
+				break
+			}
+		}
+		if same {
+			q := string(first)
+			if len(q) > 40 {
+				q = q[:40]
+			}
+			return fmt.Sprintf("link %s: the last %d writes are all %q, within %v of simulated time", l.Name, n, q, last[n-1].T-last[0].T)
+		}
+	}
+	return ""
 }
 
 func (l *Link) signalLocked() {
